@@ -126,6 +126,7 @@ def check(ctx):
     ctx.rule("R2", "in cd/pushd/popd/dirs no error return is reachable after the stack was mutated or the directory changed", floor=4)
     ctx.rule("R3", "a directory change that can fail silently is not issued after the stack was mutated unless the target was validated or the result is checked", floor=2)
     ctx.rule("R4", "every pushd insertion reaches the $DIRSTACK_SIZE truncation before a normal return", floor=1)
+    ctx.rule("R6", "after every interactive command the shell re-synchronises: _fix_cwd leaves $PWD alone only when it has compared the real paths of the process directory and $PWD (or could not determine the directory), and every exit of the command loop body passes it", floor=2)
     ctx.rule("R5", "every computed index into the directory stack is inside 0..len-1 for all counts admitted by the guards that dominate it (a negative index wraps silently: `except IndexError` is not a range check)", floor=4)
 
     # ------------------------------------------------------------------ R1
@@ -377,6 +378,58 @@ def check(ctx):
                 ok = ok and isinstance(s0.value.slice, ast.Slice) and s0.value.slice.lower is None and unparse(s0.value.slice.upper) == unparse(t.test.comparators[0])
                 ctx.ob("R4", st, "the stack is cut to its first $DIRSTACK_SIZE entries (newest kept)", ok, key="pushd|truncation-shape", where=loc(t))
 
+    _resync(ctx)
+
+
+def _resync(ctx):
+    from ..engine import dtable
+
+    bs = ctx.repo.module(BS)
+    fx = bs.func("BaseShell._fix_cwd")
+    st = f"{BS}:BaseShell._fix_cwd"
+    ps = [p_ for p_ in dtable.paths(fx, stores=True, loops="skip") if dtable.feasible(p_)]
+
+    def writes_pwd(p_):
+        return any(isinstance(e, ast.Assign) and any(isinstance(t, ast.Subscript) and const_value(t.slice, None) == "PWD" for t in e.targets) for e in p_.effects)
+
+    def dir_known(p_):
+        # the path on which the process directory could be read: `<getcwd> is None` is false and no exception edge was taken
+        if any(isinstance(e, ast.Constant) or "<exception" in unparse(e) for e, _ in p_.conds):
+            return False
+        return any(isinstance(e, ast.Compare) and isinstance(e.ops[0], ast.Is) and const_value(e.comparators[0], 0) is None and "getcwd" in unparse(e.left) and not pol for e, pol in p_.conds)
+
+    def compared_equal(p_):
+        for e, pol in p_.conds:
+            if isinstance(e, ast.Compare) and len(e.ops) == 1 and isinstance(e.ops[0], (ast.Eq, ast.NotEq)):
+                l, r = unparse(e.left), unparse(e.comparators[0])
+                if "realpath" in l and "realpath" in r and (("getcwd" in l and "PWD" in r) or ("getcwd" in r and "PWD" in l)):
+                    if pol == isinstance(e.ops[0], ast.Eq):
+                        return True
+        return False
+
+    known = [p_ for p_ in ps if dir_known(p_)]
+    if len(known) < 2 or not any(writes_pwd(p_) for p_ in known):
+        raise AnalysisError(f"{st}: the known-directory paths of the resynchroniser were not recognised ({len(known)} of {len(ps)})")
+    n_keep = 0
+    for p_ in known:
+        if writes_pwd(p_):
+            continue
+        n_keep += 1
+        ok = compared_equal(p_)
+        ctx.ob("R6", st, "a path that leaves $PWD as it is has found realpath(process directory) == realpath($PWD)", ok, key="fix_cwd|keeps-pwd-without-comparing", where=loc(fx), detail="path: " + "; ".join(p_.cond_texts())[:300])
+    if not n_keep:
+        raise AnalysisError(f"{st}: no in-sync path enumerated")
+    # ... and the resynchroniser runs after every command, whatever the command did
+    dfn = bs.func("BaseShell.default")
+    cfg = CFG(dfn, catchall=("BaseException",))
+    run = [n for n in cfg.nodes if n.kind == "stmt" and any(call_name(c) == "run_compiled_code" for c in calls_in(n.ast))]
+    fix = [n for n in cfg.nodes if n.kind == "stmt" and any(call_name(c) == "self._fix_cwd" for c in calls_in(n.ast))]
+    ok = bool(run) and bool(fix)
+    path = None
+    if ok:
+        ok, path = cfg.must_pass(run, lambda m_: m_ in fix, exits=("exit",))
+    ctx.ob("R6", f"{BS}:BaseShell.default", "every normal exit after run_compiled_code passes _fix_cwd()", ok, key="default|no-resync", where=loc(dfn), path=cfg.fmt_path(path) if path else None)
+
 
 META = {
     "technique": "static analysis: who-may-call os.chdir / who-may-write $PWD over the whole package, CFG dominance and handler reachability in _change_working_directory, reachability of error returns after mutation, must-pass-through to the size truncation",
@@ -392,4 +445,5 @@ META = {
     "outcomes; a negative index would wrap silently). Which entry +N/-N *means* is not decided.",
     "note": "Decides the listed structural clauses, not the behaviour. Error returns are recognised by the alias "
     "convention `return out, err, <non-zero>`.",
+    "more": 'Also decided: the resynchroniser _fix_cwd leaves $PWD alone only after comparing the real paths of the process directory and $PWD, and every normal exit of the command loop body passes it.',
 }
